@@ -186,3 +186,33 @@ func verif_CloseNotifyConn_Close(cc *CloseNotifyConn) {
 		verif.Ensures(!verif.Called("net.Conn).Close") && !verif.Called("dyncall:"), "second_close_does_nothing")
 	}
 }
+
+// StatsConn (the accounting wrapper around every work connection of an http
+// proxy; C02 "responses preserved", C01): Read and Write hand on exactly what
+// the wrapped connection reported - the byte count together with the error,
+// data delivered along with io.EOF included - into / from the caller's buffer,
+// and account those bytes.
+//
+//verif:contract (*~/pkg/util/net.StatsConn).Read
+//verif:props C02 C01
+func verif_StatsConn_Read(sc *StatsConn, p []byte) {
+	r0 := sc.totalRead
+	verif.ResetEvents()
+	n, err := sc.Read(p)
+	const ev = "net.Conn).Read"
+	verif.Ensures(verif.CallCount(ev) == 1 && verif.Same(verif.NthArg[any](ev, 0, 0), any(sc.Conn)) && verif.Same(verif.NthArg[[]byte](ev, 0, 1), p), "one_read_of_the_wrapped_connection_into_the_callers_buffer")
+	verif.Ensures(n == verif.RetInt(ev, 0) && err == verif.RetErr(ev, 1), "count_and_error_handed_on_together")
+	verif.Ensures(sc.totalRead == r0+int64(n), "bytes_accounted")
+}
+
+//verif:contract (*~/pkg/util/net.StatsConn).Write
+//verif:props C02 C01
+func verif_StatsConn_Write(sc *StatsConn, p []byte) {
+	w0 := sc.totalWrite
+	verif.ResetEvents()
+	n, err := sc.Write(p)
+	const ev = "net.Conn).Write"
+	verif.Ensures(verif.CallCount(ev) == 1 && verif.Same(verif.NthArg[any](ev, 0, 0), any(sc.Conn)) && verif.Same(verif.NthArg[[]byte](ev, 0, 1), p), "one_write_of_the_callers_buffer_to_the_wrapped_connection")
+	verif.Ensures(n == verif.RetInt(ev, 0) && err == verif.RetErr(ev, 1), "count_and_error_handed_on_together")
+	verif.Ensures(sc.totalWrite == w0+int64(n), "bytes_accounted")
+}
